@@ -28,12 +28,47 @@ func relabel(v any, ctr *int) any {
 	return float64(*ctr)
 }
 
+// relabelKinds: the same trees with leaves of every scalar kind in turn (null, booleans, numbers,
+// strings): a leaf is a leaf whatever its kind.
+func relabelKinds(v any, ctr *int) any {
+	switch x := v.(type) {
+	case []any:
+		out := make([]any, len(x))
+		for i, e := range x {
+			out[i] = relabelKinds(e, ctr)
+		}
+		return out
+	case map[string]any:
+		out := map[string]any{}
+		for _, k := range sortedKeys(x) {
+			out[k] = relabelKinds(x[k], ctr)
+		}
+		return out
+	}
+	*ctr++
+	switch *ctr % 5 {
+	case 1:
+		return nil
+	case 2:
+		return *ctr%2 == 0
+	case 3:
+		return float64(*ctr) + 0.5
+	case 4:
+		return ""
+	}
+	return false
+}
+
 func c15Docs(k int) []docEntry {
 	raw := Docs(k, []any{float64(0)}, stdKeys)
-	vals := make([]any, len(raw))
-	for i, v := range raw {
+	vals := make([]any, 0, 2*len(raw))
+	for _, v := range raw {
 		n := 0
-		vals[i] = relabel(v, &n)
+		vals = append(vals, relabel(v, &n))
+	}
+	for _, v := range raw {
+		n := 0
+		vals = append(vals, relabelKinds(v, &n))
 	}
 	return makeDocs(vals)
 }
@@ -124,6 +159,8 @@ func runC15(r *Run) {
 		for _, t := range objectTrees(n, memo) {
 			ctr := 0
 			deep = append(deep, relabel(t, &ctr))
+			ctr = 0
+			deep = append(deep, relabelKinds(t, &ctr))
 		}
 	}
 	r.Bound("object_only_trees_up_to_nodes", K+4)
